@@ -106,6 +106,70 @@ fn check_reference(c: &PairCase, info: &mut Info) -> Result<(), String> {
     Ok(())
 }
 
+// ---- call histories: the value must not depend on earlier calls --------------------------------------
+
+/// a point drawn from a tiny set so that related points (same point, its negation = same x /
+/// opposite y, its beta-twist = same y / other x) meet in consecutive calls
+#[derive(Clone, Debug, Serialize, Deserialize, PartialEq, Eq, Hash)]
+pub struct HPt {
+    pub idx: u8,
+    pub neg: bool,
+    /// multiply x by beta^k (the endomorphism (x,y) -> (beta x, y) acts as a scalar lambda^k on the subgroup)
+    pub beta: u8,
+}
+
+#[derive(Clone, Debug, Serialize, Deserialize, PartialEq, Eq, Hash)]
+pub struct HistCase {
+    pub calls: Vec<(HPt, HPt, u8)>,
+}
+
+fn hpt_strategy() -> BoxedStrategy<HPt> {
+    (0u8..3, any::<bool>(), prop_oneof![4 => Just(0u8), 1 => Just(1u8), 1 => Just(2u8)]).prop_map(|(idx, neg, beta)| HPt { idx, neg, beta }).boxed()
+}
+
+fn hist_strategy() -> BoxedStrategy<HistCase> {
+    proptest::collection::vec((hpt_strategy(), hpt_strategy(), 0u8..3), 2..7).prop_map(|calls| HistCase { calls }).boxed()
+}
+
+fn hpt_build<G: HasPool>(h: &HPt) -> refmodel::curve::Pt<G::F> {
+    let base = PointR::Sub(h.idx);
+    let p = if h.beta % 3 == 0 { base } else { PointR::Beta(Box::new(base), h.beta % 3) };
+    let p = if h.neg { PointR::Neg(Box::new(p)) } else { p };
+    p.build::<G>()
+}
+
+fn check_history(c: &HistCase, info: &mut Info) -> Result<(), String> {
+    let mut related = false;
+    let mut prev: Option<(HPt, HPt)> = None;
+    for (i, (hp, hq, how)) in c.calls.iter().enumerate() {
+        let pm = hpt_build::<G1m>(hp);
+        let qm = hpt_build::<G2m>(hq);
+        if let Some((pp, pq)) = &prev {
+            if (pq.idx == hq.idx && pq != hq) || (pp.idx == hp.idx && pp != hp) {
+                related = true;
+                info.class("consecutive-calls-on-related-points (same x / same y)");
+            }
+            if pq == hq || pp == hp {
+                info.class("consecutive-calls-on-the-same-point");
+            }
+        }
+        prev = Some((hp.clone(), hq.clone()));
+        let (pc, qc) = (aff_c::<G1m>(&pm), aff_c::<G2m>(&qm));
+        let e = match how % 3 {
+            0 => fq12_m(&cr("Engine::pairing", || Bls12::pairing(pc, qc))?),
+            1 => fq12_m(&cr("pairing_with", || pc.pairing_with(&qc))?),
+            _ => fq12_m(&cr("pairing_with", || qc.pairing_with(&pc))?),
+        };
+        // oracle independent of any history: the textbook pairing of exactly these two points
+        let want = mp::pairing(&pm, &qm);
+        if e != want {
+            return Err(format!("call #{} of the history: pairing of {:?} and {:?} differs from the textbook value (the same call may be right in isolation: result depends on earlier calls?)", i, hp, hq));
+        }
+    }
+    info.nt_if(related);
+    Ok(())
+}
+
 fn kat(_i: u64) -> Result<(), String> {
     let e = fq12_m(&cr("pairing", || Bls12::pairing(aff_c::<G1m>(&g1_gen()), aff_c::<G2m>(&g2_gen())))?);
     if e != published_e_g1_g2() {
@@ -132,11 +196,12 @@ fn replay_kat(v: &Value) -> Result<(), String> {
 pub fn def() -> PropDef {
     PropDef {
         id: "C03",
-        rule: "P = [a]g1, Q = [b]g2 built by the model from pool points with known discrete logs times structured scalars (0, 1, r-1, r, r+1, single bits, word-straddling patterns, 2^255-1, 2^256-1, uniform: values >= r included), so identities occur on either or both sides. Oracles: (i) textbook reduced ate pairing over the flat Fq12 (exact equality of all 12 coefficients) on a subset; (ii) the published e(g1,g2); (iii) e([a]g1,[b]g2) = published^(ab) with the power taken in the model; (iv) e^r = 1; (v) e = 1 iff P = O or Q = O; (vi) both pairing_with directions equal Engine::pairing. Non-trivial = both points non-identity and ab not in {0, +-1}; distinct = distinct cases",
+        rule: "P = [a]g1, Q = [b]g2 built by the model from pool points with known discrete logs times structured scalars (0, 1, r-1, r, r+1, single bits, word-straddling patterns, 2^255-1, 2^256-1, uniform: values >= r included), so identities occur on either or both sides. Oracles: (i) textbook reduced ate pairing over the flat Fq12 (exact equality of all 12 coefficients) on a subset; (ii) the published e(g1,g2); (iii) e([a]g1,[b]g2) = published^(ab) with the power taken in the model; (iv) e^r = 1; (v) e = 1 iff P = O or Q = O; (vi) both pairing_with directions equal Engine::pairing; (vii) call histories on related points (negations, beta-twists) give history-independent values. Non-trivial = both points non-identity and ab not in {0, +-1}; distinct = distinct cases",
         needs_pairing: true,
         subs: vec![
             Box::new(EnumSub { name: "published-value", rule: "e(g1,g2) equals the published value (enumerated: evaluated twice)", run: run_kat, replay: replay_kat, exhaustive: true }),
             Box::new(Sub { name: "textbook-reference", rule: "crate pairing == textbook ate pairing (model), e^r = 1", quick: 96, thorough: 3000, strategy: || boxed(pair_strategy()), check: check_reference }),
+            Box::new(Sub { name: "call-histories", rule: "sequences of 2..6 pairing calls on one thread over a tiny point set closed under negation (same x, opposite y) and the beta-twist (same y, other x), each compared with the textbook pairing: the value must not depend on earlier calls", quick: 40, thorough: 1500, strategy: || boxed(hist_strategy()), check: check_history }),
             Box::new(Sub { name: "bilinearity", rule: "e([a]g1,[b]g2) == published^(ab); non-degeneracy; call direction", quick: 1200, thorough: 40_000, strategy: || boxed(pair_strategy()), check: check_relations }),
         ],
         assumptions: COMMON_ASSUMPTIONS.to_vec(),
